@@ -31,7 +31,7 @@ COMPONENTS = {'real': ['compiled enspara.info_theory.libinfo (unmodified generat
 ASSUMPTIONS = ['at least one frame per trajectory (zero frames is outside the statement)',
                'state counts >= 2 per feature for channel-capacity normalisation (the routine asserts it)',
                'floating tolerances for the algebraic laws: 1e-9 absolute / relative']
-REACH_EXPECTED = ['team_ge_2', 'one_thread_per_feature', 'different_feature_counts', 'different_state_counts',
+REACH_EXPECTED = ['long_trajectory', 'team_ge_2', 'one_thread_per_feature', 'different_feature_counts', 'different_state_counts',
                   'mixed_dtypes', 'self_counts', 'invalid_negative', 'invalid_too_large', 'invalid_length', 'pooled_trajectories',
                   'weighted_uniform', 'relabel_invariance', 'permutation_invariance', 'schedule_pair_compared']
 INTS = ('int8', 'int16', 'int32', 'int64', 'uint8', 'uint16', 'uint32', 'uint64')
@@ -44,6 +44,12 @@ def setup():
 def exact_counts(A, B, n_a, n_b):
     fa, fb = A.shape[1], B.shape[1]
     jc = np.zeros((fa, fb, n_a, n_b), dtype=np.int64)
+    if len(A) > 2000:
+        A64, B64 = A.astype(np.int64), B.astype(np.int64)
+        for i in range(fa):
+            for j in range(fb):
+                jc[i, j] = np.bincount(A64[:, i] * n_b + B64[:, j], minlength=n_a * n_b).reshape(n_a, n_b)
+        return jc
     Al, Bl = A.tolist(), B.tolist()
     for ra, rb in zip(Al, Bl):
         for i, u in enumerate(ra):
@@ -92,7 +98,10 @@ def run_kernel(ctx, fn, args, T, dec):
     ctx.count('virtual_thread_switches', st['switches'])
     ctx.count('isolated_regions', st['iso_regions'])
     if st['conflict_bytes']:
-        ctx.hit('write_write_conflict_bytes', st['conflict_bytes'])
+        # two virtual threads of one team wrote different values to the same bytes of a NumPy buffer between two
+        # barriers: in a race-free region the threads' write sets are disjoint
+        raise SimViolation('data_race_write_write', '%d bytes written with different values by more than one thread of the '
+                           'team (T=%d) within one barrier epoch' % (st['conflict_bytes'], st['max_team']))
     return res, st
 
 
@@ -123,7 +132,13 @@ def valid(ctx, t):
     nfr = t.irange(1, 40)
     self_mode = t.flag(1, 3)
     fa = t.irange(1, 5)
-    fb = fa if t.flag(1, 2) else t.irange(1, 5)
+    long_traj = t.flag(1, 40)
+    if long_traj:
+        # long trajectories, around the sizes where fast paths tend to switch
+        nfr = t.choice((4096, 32768, 33000, 65537))
+        fa = t.irange(2, 3)
+        ctx.hit('long_trajectory')
+    fb = fa if t.flag(1, 2) else t.irange(1, 5 if not long_traj else 3)
     na = t.irange(2, 5)
     nb = na if t.flag(1, 2) else t.irange(2, 5)
     dta = t.choice(INTS)
@@ -189,7 +204,8 @@ def valid(ctx, t):
         if entry != 'joint_counts_default_n':
             require(np.array_equal(jc, jc2), 'thread_count_dependent', lambda: 'T=%d and T=%d give different tables' % (T, T2))
         ctx.hit('schedule_pair_compared')
-    laws(ctx, t, mi, entropy, A, B, jc, na, nb, self_mode, want_na, want_nb)
+    if not long_traj:
+        laws(ctx, t, mi, entropy, A, B, jc, na, nb, self_mode, want_na, want_nb)
 
 
 def close(a, b, tol=1e-9):
